@@ -117,10 +117,11 @@ def gen_rake(rng):
     return (5, 100, 3, True), k
 
 
-def gen_custom_streets(rng, unit):
+def gen_custom_streets(rng, unit, kind=None):
     """A random but admissible street list (first street deals hole cards)."""
-    kind = rng.choice(['flop', 'stud', 'draw', 'mixed', 'sameobj'])
-    cap = rng.choice([None, None, 4, 2, 1])
+    k0 = rng.choice(['flop', 'stud', 'draw', 'mixed', 'sameobj'])
+    kind = kind or k0
+    cap = rng.choice([None, None, 4, 2, 1, 0])     # 0: a street on which nobody may bet or raise
     streets = []
     if kind in ('flop', 'sameobj'):
         hts = rng.choice([(phands.StandardHighHand,), (phands.StandardHighHand, phands.StandardLowHand),
@@ -229,6 +230,8 @@ def gen_config(rng: random.Random, seed_tag: int, force_variant: str | None = No
         force_variant = rng.choice(['F2L3D', 'F2L3D', 'FB', 'N2L1D', 'NR'])
     elif director == 'chop':
         force_variant = 'NT'
+    elif director == 'mixdeal':
+        force_variant = 'custom'
     variant = force_variant or rng.choice(profile['variants'] if profile.get('variants') else
                                           list(VARIANTS) + ([] if profile.get('predefined') else ['custom'] * 2))
     autos, auto_mode = gen_autos(rng)
@@ -251,12 +254,21 @@ def gen_config(rng: random.Random, seed_tag: int, force_variant: str | None = No
         boards = 1
         autos = tuple(a for a in Automation if a not in (Automation.HOLE_DEALING,))
         auto_mode = 'chop'
+    if director == 'mixdeal':
+        # a street that deals hole cards and board cards, with only part of the dealing automated: the order in
+        # which automated and manual dealing steps interleave is the engine's, the un-automated twin follows it
+        keep = rng.choice([{Automation.BOARD_DEALING}, {Automation.BOARD_DEALING, Automation.CARD_BURNING},
+                           {Automation.HOLE_DEALING}, {Automation.HOLE_DEALING, Automation.CARD_BURNING},
+                           {Automation.CARD_BURNING}])
+        cardy = {Automation.CARD_BURNING, Automation.HOLE_DEALING, Automation.BOARD_DEALING}
+        autos = tuple(a for a in AUTOS if a not in cardy or a in keep)
+        auto_mode = 'mixdeal'
     meta = {'variant': variant, 'autos': auto_mode, 'mode': mode.name, 'boards': boards,
             'rake': rake_kind, 'divchunk': divchunk, 'warnerr': warnerr, 'trim': trim}
     rake_f = impl.make_rake(*rake_t)
     dm = impl.make_divmod(divchunk)
     if variant == 'custom':
-        streets, deck, hts, bs, ckind = gen_custom_streets(rng, unit)
+        streets, deck, hts, bs, ckind = gen_custom_streets(rng, unit, 'mixed' if director == 'mixdeal' else None)
         n = rng.randint(2, 6)
         if director == 'exact_deck':
             streets, deck, hts, n, ckind = exact_deck_streets(rng, unit)
@@ -293,6 +305,8 @@ def gen_config(rng: random.Random, seed_tag: int, force_variant: str | None = No
         if director == 'stud8':
             # a full stud table: with nobody folding the deck runs out and the last street is a shared card
             n = MAX_PLAYERS[variant]
+            if rng.random() < 0.3:
+                n = 9           # one more than the deck was made for: two streets are dealt as shared cards
             stacks, sk = [rng.randint(60, 200) * unit for _ in range(n)], 'deep'
         if director == 'deck_boundary':
             n = MAX_PLAYERS[variant] if variant != 'NR' else rng.randint(4, 5)
@@ -513,6 +527,10 @@ def valid_ops(rng: random.Random, s: State, tune: dict) -> list[tuple[str, float
         if i is not None and s.hole_cards[i] and all(s.hole_cards[i]):
             out.append((f'show {_cards_text(s.hole_cards[i])} -', 1))
             out.append((f'show {_cards_text(s.hole_cards[i])} {i}', 0.5))
+            if len(s.hole_cards[i]) > 1 and s.mode != impl.Mode.TOURNAMENT:
+                # a partial show (admitted in cash games): the last card(s) only, so that what is tabled is not
+                # a prefix of what was dealt
+                out.append((f'show {_cards_text(list(s.hole_cards[i])[1:])} -', 0.8))
         others = [j for j in s.showdown_indices if j != i]
         if others:
             out.append((f'show - {rng.choice(others)}', 1))
